@@ -187,3 +187,28 @@ def handleSd (cmd : String) (args : List SExp) : String :=
   | _, _ => "bad-args"
 
 end Pyctr
+
+namespace Pyctr
+
+def handleCci (cmd : String) (args : List SExp) : String :=
+  match cmd, args with
+  | "cci-parse", [f, st] =>
+    match f.bytes?, st.nat? with
+    | some file, some start =>
+      match Cci.parse file start with
+      | .ok s => "ok media=" ++ toHexW s.mediaId ++ " size=" ++ toString s.imageSize ++ " parts=" ++
+          ",".intercalate (s.parts.map fun p => toString p.index ++ ":" ++ toString p.offset ++ ":" ++ toString p.size)
+      | .error e => "e:" ++ e.name
+    | _, _ => "bad-args"
+  | "cdn-select", [.list present, .list recs] =>
+    -- present: list of existing file names (hex); recs: list of (lower upper) name pairs
+    match present.mapM SExp.bytes?, recs.mapM (fun r => match r with
+        | .list [a, b] => do pure ((← a.bytes?), (← b.bytes?))
+        | _ => none) with
+    | some pres, some rs =>
+      let chosen := rs.map fun (lo, up) => Cdn.chooseFile (fun n => pres.contains n) lo up
+      " ".intercalate (chosen.map fun c => match c with | some n => toHexW n | none => "skip")
+    | _, _ => "bad-args"
+  | _, _ => "bad-args"
+
+end Pyctr
